@@ -248,7 +248,10 @@ def run(c):
               "same address by consecutive transactions, or whose re-creation (value transfer / CREATE2) happens inside a frame that is "
               "reverted (whole transaction, or an inner frame next to a succeeding sibling) and which the next block reads (balance, code "
               "hash, code size, call, transfer); commits with absent signatures; one scenario in 24 is a chain of 131-138 mostly empty blocks (trie garbage "
-              "collection and flush limits run). "
+              "collection and flush limits run); one in 40 is a snapshot-flush chain of 142-144 blocks (4 configurations: long-running with "
+              "snapshots, archive, trie only, re-opened): the first 8 blocks write 9300 fresh 32-byte slots each (more than the snapshot "
+              "aggregator's 4 MB), block 3 clears 300 slots of the genesis state and destroys a genesis contract, the last 9 blocks re-read "
+              "the cleared slots and probe the destroyed account after the bottom layers were flushed into the snapshot's disk layer. "
               "Every block is executed on its parent state by the producer (proposer path, block from CreateProposalBlock), by 10 "
               "configurations through SaveBlock + BlockExecutor.ApplyBlock (snapshots on / off / still generating, dirty cache disabled, "
               "preimages, prefetch flag, clean cache off, warm vs re-opened from the database), several times by commitBlock on a warm "
